@@ -6,6 +6,11 @@ import EinxModel.Driver.Solve
 import EinxModel.Driver.Cache
 import EinxModel.Driver.Concurrent
 import EinxModel.Driver.IR
+import EinxModel.Driver.Order
+import EinxModel.Driver.Adapt
+import EinxModel.Driver.Compile
+import EinxModel.Driver.Errors
+import EinxModel.Driver.Factory
 import EinxModel.Driver.Generic
 import EinxModel.Driver.Elab
 import EinxModel.Driver.Alias
@@ -23,6 +28,11 @@ def dispatch (j : Json) : R Json := do
   | "cache-table" | "freeze" | "pyeq" | "pyhash" | "memo" | "stack" => Einx.Driver.Cache.handle j
   | "solve" | "checksat" | "checkaxes" => Einx.Driver.Solve.handle j
   | "ir_run" | "validate" | "denote" => Einx.Driver.IR.handle j
+  | "join_exprs" | "cse_replace" | "implicit_output" => Einx.Driver.Order.handle j
+  | "adapt_check" | "split_kwargs" | "expr_to_axis" | "elementwise_shape" => Einx.Driver.Adapt.handle j
+  | "compile" => Einx.Driver.Compile.handle j
+  | "indicator" | "classify" => Einx.Driver.Errors.handle j
+  | "factory_check" | "factory_model" => Einx.Driver.Factory.handle j
   | "py_grammar" | "stb_model" => Einx.Driver.Generic.handle j
   | "parse_op_model" => Einx.Driver.Elab.handle j
   | "writes" | "writes_prog" | "alias_table" => Einx.Driver.Alias.handle j
